@@ -166,8 +166,9 @@ impl Wdb2Header {
                 let copy_table_size = u32::from_le_bytes(buf);
 
                 // Calculate index array size to skip
-                let index_array_size = if max_index > 0 {
-                    let diff = (max_index - min_index + 1) as u64;
+                let index_array_size = if max_index > 0 && max_index >= min_index {
+                    // widen first: `max_index - min_index + 1` overflows i32 for hostile headers
+                    let diff = (max_index as i64 - min_index as i64 + 1) as u64;
                     // Index array: diff * 4 bytes (u32 per entry)
                     // String length array: diff * 2 bytes (u16 per entry)
                     diff * 4 + diff * 2
